@@ -40,6 +40,9 @@ VBool(b) == [t |-> "bool", v |-> b]
 VInt(n) == [t |-> "int", v |-> n]
 VFlt(h) == [h |-> h, t |-> "float"]            \* the float h/2
 VStr(s) == [t |-> "str", v |-> s]
+\* a value of a type outside the model that is string-LIKE in Go (byte_slice, buffer) with the given text: as a
+\* subscript it is a wrongly typed key like any other non-string, whatever text it carries
+VFor(n, s) == [t |-> "foreign", n |-> n, v |-> s]
 VList(a) == [a |-> a, t |-> "list"]
 VMap(a) == [a |-> a, t |-> "map"]
 VSet(a) == [a |-> a, t |-> "set"]
@@ -278,14 +281,17 @@ ListEach(c, cb, acc, h) ==
 MapKeysL(c, h) == LET ks == MapKeys(c, h) IN OkNewList([i \in 1..Len(ks) |-> VStr(ks[i])], h)
 MapValuesL(c, h) == LET ks == MapKeys(c, h) IN OkNewList([i \in 1..Len(ks) |-> MapOf(c, h)[ks[i]]], h)
 MapItemsL(c, h) == LET ks == MapKeys(c, h) IN AllocPairs([i \in 1..Len(ks) |-> <<VStr(ks[i]), MapOf(c, h)[ks[i]]>>], h, <<>>)
-MapGet(c, k, hasd, d, h) == IF k.t # "str" THEN Err("type error", h)
+\* Map METHODS take their key the way every builtin takes a string parameter: a string-like value (byte_slice,
+\* buffer) is read as its text.  Subscripts (m[k], m[k] = v, delete, in) are strict: only a string is a key.
+AsKey(k) == IF k.t = "foreign" THEN VStr(k.v) ELSE k
+MapGet(c, k0, hasd, d, h) == LET k == AsKey(k0) IN IF k.t # "str" THEN Err("type error", h)
                             ELSE IF k.v \in DOMAIN MapOf(c, h) THEN Ok(MapOf(c, h)[k.v], h)
                             ELSE Ok(IF hasd THEN d ELSE VNil, h)
-MapPop(c, k, hasd, d, h) == IF k.t # "str" THEN Err("type error", h)
+MapPop(c, k0, hasd, d, h) == LET k == AsKey(k0) IN IF k.t # "str" THEN Err("type error", h)
                             ELSE LET m == MapOf(c, h) IN
                                  IF k.v \in DOMAIN m THEN Ok(m[k.v], [h EXCEPT ![c.a].m = [q \in DOMAIN m \ {k.v} |-> m[q]]])
                                  ELSE Ok(IF hasd THEN d ELSE VNil, h)
-MapSetDefault(c, k, v, h) == IF k.t # "str" THEN Err("type error", h)
+MapSetDefault(c, k0, v, h) == LET k == AsKey(k0) IN IF k.t # "str" THEN Err("type error", h)
                              ELSE LET m == MapOf(c, h) IN
                                   IF k.v \in DOMAIN m THEN Ok(m[k.v], h) ELSE Ok(v, [h EXCEPT ![c.a].m = (k.v :> v) @@ @])
 MapUpdate(c, o, h) == IF o.t # "map" THEN Err("type error", h) ELSE Ok(c, [h EXCEPT ![c.a].m = MapOf(o, h) @@ @])
